@@ -313,4 +313,139 @@ def fromBytes (r : ClassRow) (b : Bytes) : Except Err Bytes :=
   | .ok _ => .error .notImplemented
   | .error e => .error e
 
+/-! ### histories over ONE process (several saves / loads / plain `Opener` uses in a row)
+
+  The real code keeps NO process-wide state between calls: `Opener._get_opener_argnames` scans the
+  class's `compress_ext_map` on every call, `filespec_to_file_map`/`types_filenames`/`load()` are pure
+  functions of the name and of the files that exist.  The model therefore threads ONLY the file system
+  through a history; the history stream of the harness runs the same histories in a fresh interpreter
+  each (so that module/class-level caches introduced by a change show up as a disagreement). -/
+
+/-- what the model remembers of a file: which image class wrote it (`[]` = not an image) and the codec
+    its bytes really are in -/
+structure FEnt where
+  writer : Str
+  codec : Nat
+  deriving Repr, DecidableEq
+
+abbrev PFS := List (Str × FEnt)
+def pfsPut (fs : PFS) (n : Str) (e : FEnt) : PFS := (n, e) :: fs.filter (fun x => x.1 ≠ n)
+def pfsDel (fs : PFS) (n : Str) : PFS := fs.filter (fun x => x.1 ≠ n)
+
+/-- the static environment of a history: the class table, BOTH opener key tables (`Opener.compress_ext_map`
+    of the base class and `ImageOpener.compress_ext_map`), `loadsave` constants and the external sniff
+    answers (`sniffTab` : writer class ↦ the classes whose `may_contain_header` accepts its header) -/
+structure Env where
+  table : List ClassRow
+  baseKeys : List (Str × Nat)
+  imgKeys : List (Str × Nat)
+  icase : Bool
+  saveSfx : List Str
+  toPair : List (Str × Str)
+  toSingle : List (Str × Str)
+  imgHdr : List Str
+  nii : List Str
+  headerKey : Str
+  optional : List Str          -- members that `from_file_map` tolerates to be missing (SPM `mat`)
+  sniffTab : List (Str × List Str)
+
+inductive Op where
+  /-- `Opener(fn, 'wb')` (`image = false`) or `ImageOpener(fn, 'wb')` (`true`): write a few bytes to a
+      side file, close.  Observable: the codec the bytes on disk are in. -/
+  | opener (image : Bool) (fn : Str)
+  /-- `nib.save(<image of class cls>, fn)` -/
+  | save (cls fn : Str)
+  /-- `nib.load(fn)` and reading its data -/
+  | load (fn : Str)
+  /-- `os.rename(a, b)` -/
+  | rename (a b : Str)
+  deriving Repr, DecidableEq
+
+inductive LoadRes where
+  | cls (name : Str)      -- loaded as this class
+  | nofile                -- the name, or a member file the class needs, does not exist
+  | err                   -- ImageFileError: no class accepts
+  | mismatch              -- a file's bytes are not in the codec its name asks for (reader fails)
+  | unmodelled
+  deriving Repr, DecidableEq
+
+inductive Obs where
+  | codec (c : Nat)
+  | saved (cls : Str) (files : List (Str × Nat))     -- (file written, codec), in file-map order
+  | saveErr
+  | loaded (r : LoadRes)
+  | moved (ok : Bool)
+  | bad
+  deriving Repr, DecidableEq
+
+/-- does the header sniff of class `r` accept, given the files that exist?  (`_sniff_meta_for` reads the
+    `header` member's file — or the name itself — through `ImageOpener`; an unreadable file (missing, or
+    not in the codec its name asks for) gives `None` ⇒ not accepted) -/
+def histSniff (env : Env) (fs : PFS) (r : ClassRow) (f : Str) : Bool :=
+  match sniffFile env.headerKey r f with
+  | .ok s =>
+    match fs.lookup s with
+    | some e => decide (e.codec = openerCodec env.imgKeys env.icase s) &&
+                ((env.sniffTab.lookup e.writer).getD []).contains r.name
+    | none => false
+  | .error _ => false
+
+/-- `nib.load(f)` + data read on the file system `fs` (loadsave.py:85-121, filebasedimages.py:405-476) -/
+def histLoad (env : Env) (fs : PFS) (f : Str) : LoadRes :=
+  if (fs.lookup f).isNone then .nofile
+  else
+    match env.table.find? (fun r => extOK r f && (!r.sniffs || histSniff env fs r f)) with
+    | none => .err
+    | some r =>
+      match filespecToFileMap r f with
+      | some (.ok m) =>
+        if m.all (fun kv => env.optional.contains kv.1 || (fs.lookup kv.2).isSome) then
+          if m.all (fun kv => match fs.lookup kv.2 with
+                              | some e => decide (e.codec = openerCodec env.imgKeys env.icase kv.2)
+                              | none => true) then .cls r.name
+          else .mismatch
+        else .nofile
+      | _ => .unmodelled
+
+/-- `nib.save(img_of cls, fn)`: the class that finally writes and the (file, codec) list -/
+def histSave (env : Env) (cls fn : Str) : Option (Str × List (Str × Nat)) :=
+  match findRow env.table cls with
+  | none => none
+  | some k =>
+    match saveClass env.table env.saveSfx env.toPair env.toSingle env.imgHdr env.nii k fn with
+    | .error _ => none
+    | .ok wname =>
+      match findRow env.table wname with
+      | none => none
+      | some w =>
+        match filespecToFileMap w fn with
+        | some (.ok m) => some (wname, m.map fun kv => (kv.2, openerCodec env.imgKeys env.icase kv.2))
+        | _ => none
+
+def step (env : Env) (fs : PFS) : Op → PFS × Obs
+  | .opener image fn =>
+      -- the side file is never named by a save/load step (harness: its own directory): not tracked
+      (fs, .codec (openerCodec (if image then env.imgKeys else env.baseKeys) env.icase fn))
+  | .save cls fn =>
+      match histSave env cls fn with
+      | some (w, files) => (files.foldl (fun acc fc => pfsPut acc fc.1 ⟨w, fc.2⟩) fs, .saved w files)
+      | none => (fs, .saveErr)
+  | .load fn => (fs, .loaded (histLoad env fs fn))
+  | .rename a b =>
+      match fs.lookup a with
+      | some e => (pfsPut (pfsDel fs a) b e, .moved true)
+      | none => (fs, .moved false)
+
+/-- run a history from the file system `fs`: final file system and one observation per step -/
+def runHist (env : Env) (fs : PFS) : List Op → PFS × List Obs
+  | [] => (fs, [])
+  | op :: rest =>
+    let r := step env fs op
+    let t := runHist env r.1 rest
+    (t.1, r.2 :: t.2)
+
+def Op.isOpener : Op → Bool
+  | .opener _ _ => true
+  | _ => false
+
 end Nb.C12
